@@ -26,7 +26,7 @@ import traceback
 import numpy as np
 from hypothesis import strategies as st
 
-from vf.common import REPO, Check, HarnessError, Violation, require
+from vf.common import Check, HarnessError, Violation, require
 from vf.strategies import CRS_POOL, SINU_PROJ, affines, mk_affine, mk_crs_spec, simple_tag
 
 RULE = (
@@ -576,9 +576,9 @@ def _is_d15(exc, case):
         return False
     if not case["spill_sz"]:
         return False
-    H, W = case["shape"]
-    ty, tx = _norm_block(_block_list(case)[0])
-    return -(-H // ty) * -(-W // tx) > 20  # final bag was repartitioned: its last partition holds >= 2 tiles
+    _, (Hp, Wp), tiles = expected_layout(case["shape"], _block_list(case))
+    ty, tx = tiles[0]
+    return -(-Hp // ty) * -(-Wp // tx) > 20  # final bag was repartitioned: its last partition holds >= 2 tiles
 
 
 class Written:
@@ -660,7 +660,7 @@ def classify(case, T):
     T.cls("bigtiff" if case["bigtiff"] else "classic_tiff")
     T.cls("stats_%s" % (case["stats"] if isinstance(case["stats"], bool) else "int"))
     planes = case["ns"] if case["axis"] == "SYX" else 1
-    nt0 = -(-H // ty) * -(-W // tx)
+    nt0 = -(-Hp // ty) * -(-Wp // tx)
     if nt0 > 20:
         T.cls("repartitioned_bags")
     if (n + 1) * planes > 4:
@@ -771,44 +771,43 @@ def nodata_matches(got, want):
 def gdal_checks(w, case):
     import rasterio
 
-    if True:
-        ref, gbox = w.ref, w.gbox
-        S, H, W = ref.shape
-        nd = _nodata_value(case)
-        with rasterio.open(w.path) as ds:
-            require(ds.driver == "GTiff", "GDAL opened the file with driver %s", ds.driver)
-            require(ds.count == S, "GDAL sees %d bands, expected %d", ds.count, S)
-            require(all(np.dtype(d) == ref.dtype for d in ds.dtypes), "GDAL band dtypes %r, expected %s", ds.dtypes, ref.dtype)
-            lvl0 = ds.read()
-            check_window(lvl0, ref, "GDAL level 0")
-            msg = transform_close(ds.transform, gbox.affine, case["geo"]["family"])
-            require(msg is None, "GDAL transform differs from the GeoBox (padding not on right/bottom only?): %s", msg)
-            label = case["geo"]["crs"]["label"]
-            require(ds.crs is not None, "GDAL finds no CRS in the file")
-            if label == "sinu":
-                import pyproj
+    ref, gbox = w.ref, w.gbox
+    S, H, W = ref.shape
+    nd = _nodata_value(case)
+    with rasterio.open(w.path) as ds:
+        require(ds.driver == "GTiff", "GDAL opened the file with driver %s", ds.driver)
+        require(ds.count == S, "GDAL sees %d bands, expected %d", ds.count, S)
+        require(all(np.dtype(d) == ref.dtype for d in ds.dtypes), "GDAL band dtypes %r, expected %s", ds.dtypes, ref.dtype)
+        lvl0 = ds.read()
+        check_window(lvl0, ref, "GDAL level 0")
+        msg = transform_close(ds.transform, gbox.affine, case["geo"]["family"])
+        require(msg is None, "GDAL transform differs from the GeoBox (padding not on right/bottom only?): %s", msg)
+        label = case["geo"]["crs"]["label"]
+        require(ds.crs is not None, "GDAL finds no CRS in the file")
+        if label == "sinu":
+            import pyproj
 
-                require(pyproj.CRS(ds.crs.to_wkt()) == pyproj.CRS(SINU_PROJ), "GDAL CRS %s is not the sinusoidal CRS written", ds.crs.to_string()[:120])
-            else:
-                require(ds.crs.to_epsg() == int(label), "GDAL CRS is EPSG:%r, expected EPSG:%s", ds.crs.to_epsg(), label)
-            require(all(nodata_matches(v, nd) for v in ds.nodatavals), "GDAL nodata %r, expected %r", ds.nodatavals, nd)
-            factors = [ds.overviews(b + 1) for b in range(S)]
-            require(all(f == factors[0] for f in factors), "bands have different overview lists %r", factors)
-            factors = factors[0]
-            require(factors == [2 ** (k + 1) for k in range(len(factors))], "GDAL overview factors %r are not successive halvings", factors)
-            n_exp, padded, _ = expected_layout((H, W), _block_list(case)) if case["blocksize"] is not None else (None, None, None)
-            if n_exp is not None:
-                require(len(factors) == n_exp, "GDAL sees %d overviews, layout rule gives %d", len(factors), n_exp)
-                require((ds.height, ds.width) == padded, "GDAL raster size %r, layout rule pads %r to %r", (ds.height, ds.width), (H, W), padded)
-            pad = 2 ** len(factors)
-            require(ds.height % pad == 0 and ds.width % pad == 0, "raster size %r is not a multiple of 2^levels=%d", (ds.height, ds.width), pad)
-            require(ds.height - H < pad and ds.width - W < pad, "raster size %r padded beyond the next multiple of %d above %r", (ds.height, ds.width), pad, (H, W))
-        parent, valid = lvl0, (H, W)
-        for k in range(len(factors)):
-            with rasterio.open(w.path, OVERVIEW_LEVEL=k) as ov:
-                child = ov.read()
-            valid = check_halving(parent, child, valid, nd, "GDAL overview %d" % (k + 1))
-            parent = child
+            require(pyproj.CRS(ds.crs.to_wkt()) == pyproj.CRS(SINU_PROJ), "GDAL CRS %s is not the sinusoidal CRS written", ds.crs.to_string()[:120])
+        else:
+            require(ds.crs.to_epsg() == int(label), "GDAL CRS is EPSG:%r, expected EPSG:%s", ds.crs.to_epsg(), label)
+        require(all(nodata_matches(v, nd) for v in ds.nodatavals), "GDAL nodata %r, expected %r", ds.nodatavals, nd)
+        factors = [ds.overviews(b + 1) for b in range(S)]
+        require(all(f == factors[0] for f in factors), "bands have different overview lists %r", factors)
+        factors = factors[0]
+        require(factors == [2 ** (k + 1) for k in range(len(factors))], "GDAL overview factors %r are not successive halvings", factors)
+        n_exp, padded, _ = expected_layout((H, W), _block_list(case)) if case["blocksize"] is not None else (None, None, None)
+        if n_exp is not None:
+            require(len(factors) == n_exp, "GDAL sees %d overviews, layout rule gives %d", len(factors), n_exp)
+            require((ds.height, ds.width) == padded, "GDAL raster size %r, layout rule pads %r to %r", (ds.height, ds.width), (H, W), padded)
+        pad = 2 ** len(factors)
+        require(ds.height % pad == 0 and ds.width % pad == 0, "raster size %r is not a multiple of 2^levels=%d", (ds.height, ds.width), pad)
+        require(ds.height - H < pad and ds.width - W < pad, "raster size %r padded beyond the next multiple of %d above %r", (ds.height, ds.width), pad, (H, W))
+    parent, valid = lvl0, (H, W)
+    for k in range(len(factors)):
+        with rasterio.open(w.path, OVERVIEW_LEVEL=k) as ov:
+            child = ov.read()
+        valid = check_halving(parent, child, valid, nd, "GDAL overview %d" % (k + 1))
+        parent = child
 
 
 # --------------------------------------------------------------------------------------------- oracle 2: tifffile
@@ -882,27 +881,26 @@ def check_geotags(page0, case, gbox, what="tags"):
 def tiff_checks(w, case):
     import tifffile
 
-    if True:
-        ref, gbox = w.ref, w.gbox
-        S, H, W = ref.shape
-        nd = _nodata_value(case)
-        with tifffile.TiffFile(w.path) as tf:
-            pages = list(tf.pages)
-            require(len(pages) >= 1, "no IFD in the file")
-            arrs = []
-            for k, p in enumerate(pages):
-                require(p.is_tiled, "IFD %d is not tiled", k)
-                require(bool(int(p.subfiletype) & 1) == (k > 0), "IFD %d has NewSubfileType %d (reduced-resolution bit expected only on overviews)", k, int(p.subfiletype))
-                arrs.append(_page_array(p))
-            check_window(arrs[0], ref, "tifffile IFD 0")
-            check_geotags(pages[0], case, gbox)
-            valid = (H, W)
-            for k in range(1, len(arrs)):
-                valid = check_halving(arrs[k - 1], arrs[k], valid, nd, "tifffile IFD %d" % k)
-            n = len(pages) - 1
-            pad = 2**n
-            Hp, Wp = arrs[0].shape[1:]
-            require(Hp % pad == 0 and Wp % pad == 0 and Hp - H < pad and Wp - W < pad, "IFD 0 size %r is not %r padded up to the next multiple of 2^levels=%d", (Hp, Wp), (H, W), pad)
+    ref, gbox = w.ref, w.gbox
+    S, H, W = ref.shape
+    nd = _nodata_value(case)
+    with tifffile.TiffFile(w.path) as tf:
+        pages = list(tf.pages)
+        require(len(pages) >= 1, "no IFD in the file")
+        arrs = []
+        for k, p in enumerate(pages):
+            require(p.is_tiled, "IFD %d is not tiled", k)
+            require(bool(int(p.subfiletype) & 1) == (k > 0), "IFD %d has NewSubfileType %d (reduced-resolution bit expected only on overviews)", k, int(p.subfiletype))
+            arrs.append(_page_array(p))
+        check_window(arrs[0], ref, "tifffile IFD 0")
+        check_geotags(pages[0], case, gbox)
+        valid = (H, W)
+        for k in range(1, len(arrs)):
+            valid = check_halving(arrs[k - 1], arrs[k], valid, nd, "tifffile IFD %d" % k)
+        n = len(pages) - 1
+        pad = 2**n
+        Hp, Wp = arrs[0].shape[1:]
+        require(Hp % pad == 0 and Wp % pad == 0 and Hp - H < pad and Wp - W < pad, "IFD 0 size %r is not %r padded up to the next multiple of 2^levels=%d", (Hp, Wp), (H, W), pad)
 
 
 # --------------------------------------------------------------------------------------------- oracle 3: layout
@@ -953,64 +951,62 @@ def check_structure(pages, case, H, W, what="file"):
 def layout_checks(w, case):
     import tifffile
 
-    if True:
-        S, H, W = w.ref.shape
-        fsize = os.path.getsize(w.path)
-        with tifffile.TiffFile(w.path) as tf:
-            pages = list(tf.pages)
-            dims = check_structure(pages, case, H, W)
-            hdr_end = header_extent(tf)
-            ranges = []  # (offset, count, level, tile index)
-            for k, (p, d) in enumerate(zip(pages, dims)):
-                require(324 in p.tags and 325 in p.tags, "IFD %d lacks TileOffsets/TileByteCounts", k)
-                offs = [int(v) for v in np.atleast_1d(p.tags[324].value)]
-                cnts = [int(v) for v in np.atleast_1d(p.tags[325].value)]
-                nt = d[4] * -(-d[0] // d[2]) * -(-d[1] // d[3])
-                require(len(offs) == nt and len(cnts) == nt, "IFD %d has %d offsets / %d byte counts for %d tiles", k, len(offs), len(cnts), nt)
-                for i, (o, c) in enumerate(zip(offs, cnts)):
-                    require(c > 0, "IFD %d tile %d has byte count %d (no data written for it)", k, i, c)
-                    ranges.append((o, c, k, i))
-            require(len({r[0] for r in ranges}) == len(ranges), "two tiles share one offset")
-            ranges.sort()
-            data0 = ranges[0][0]
-            require(hdr_end <= data0, "first tile starts at %d inside the header (IFDs/tag values extend to %d)", data0, hdr_end)
-            require(data0 - hdr_end <= 16, "gap of %d bytes between the end of the header (%d) and the first tile (%d)", data0 - hdr_end, hdr_end, data0)
-            pos = data0
-            for o, c, k, i in ranges:
-                require(o == pos, "IFD %d tile %d starts at %d but the previous tile ends at %d (%s)", k, i, o, pos, "gap" if o > pos else "overlap")
-                pos = o + c
-            require(pos == fsize, "last tile ends at %d, file size is %d", pos, fsize)
-            # overview-first, smaller levels first
-            lo = {}
-            hi = {}
-            for o, c, k, i in ranges:
-                lo[k] = min(lo.get(k, o), o)
-                hi[k] = max(hi.get(k, 0), o + c)
-            for k in range(1, len(pages)):
-                require(hi[k] <= lo[k - 1], "tile data of IFD %d (overview, ends %d) does not precede tile data of IFD %d (starts %d)", k, hi[k], k - 1, lo[k - 1])
-            # every entry addresses exactly that tile's bytes: decode each range on its own
-            fh = tf.filehandle
-            nd = _nodata_value(case)
-            p0, d0 = pages[0], dims[0]
-            offs = [int(v) for v in np.atleast_1d(p0.tags[324].value)]
-            cnts = [int(v) for v in np.atleast_1d(p0.tags[325].value)]
-            ny, nx = -(-d0[0] // d0[2]), -(-d0[1] // d0[3])
-            contig = d0[4] == 1
+    S, H, W = w.ref.shape
+    fsize = os.path.getsize(w.path)
+    with tifffile.TiffFile(w.path) as tf:
+        pages = list(tf.pages)
+        dims = check_structure(pages, case, H, W)
+        hdr_end = header_extent(tf)
+        ranges = []  # (offset, count, level, tile index)
+        for k, (p, d) in enumerate(zip(pages, dims)):
+            require(324 in p.tags and 325 in p.tags, "IFD %d lacks TileOffsets/TileByteCounts", k)
+            offs = [int(v) for v in np.atleast_1d(p.tags[324].value)]
+            cnts = [int(v) for v in np.atleast_1d(p.tags[325].value)]
+            nt = d[4] * -(-d[0] // d[2]) * -(-d[1] // d[3])
+            require(len(offs) == nt and len(cnts) == nt, "IFD %d has %d offsets / %d byte counts for %d tiles", k, len(offs), len(cnts), nt)
             for i, (o, c) in enumerate(zip(offs, cnts)):
-                fh.seek(o)
-                data = fh.read(c)
-                seg, idx, shp = p0.decode(data, i)
-                require(seg is not None, "IFD 0 tile %d: bytes [%d,%d) do not decode", i, o, o + c)
-                s, rem = divmod(i, ny * nx)
-                ty, tx = divmod(rem, nx)
-                seg = np.asarray(seg).reshape(d0[2], d0[3], -1)
-                y0, x0 = ty * d0[2], tx * d0[3]
-                y1, x1 = min(H, y0 + d0[2]), min(W, x0 + d0[3])
-                if y1 <= y0 or x1 <= x0:
-                    continue
-                got = seg[: y1 - y0, : x1 - x0, :]
-                want = w.ref[:, y0:y1, x0:x1].transpose(1, 2, 0) if contig else w.ref[s : s + 1, y0:y1, x0:x1].transpose(1, 2, 0)
-                require(got.shape == want.shape and bool(_eq(got, want).all()), "IFD 0 tile %d (plane %d, row %d, col %d): bytes [%d,%d) decode to other pixels than that tile's", i, s, ty, tx, o, o + c)
+                require(c > 0, "IFD %d tile %d has byte count %d (no data written for it)", k, i, c)
+                ranges.append((o, c, k, i))
+        require(len({r[0] for r in ranges}) == len(ranges), "two tiles share one offset")
+        ranges.sort()
+        data0 = ranges[0][0]
+        require(hdr_end <= data0, "first tile starts at %d inside the header (IFDs/tag values extend to %d)", data0, hdr_end)
+        require(data0 - hdr_end <= 16, "gap of %d bytes between the end of the header (%d) and the first tile (%d)", data0 - hdr_end, hdr_end, data0)
+        pos = data0
+        for o, c, k, i in ranges:
+            require(o == pos, "IFD %d tile %d starts at %d but the previous tile ends at %d (%s)", k, i, o, pos, "gap" if o > pos else "overlap")
+            pos = o + c
+        require(pos == fsize, "last tile ends at %d, file size is %d", pos, fsize)
+        # overview-first, smaller levels first
+        lo = {}
+        hi = {}
+        for o, c, k, i in ranges:
+            lo[k] = min(lo.get(k, o), o)
+            hi[k] = max(hi.get(k, 0), o + c)
+        for k in range(1, len(pages)):
+            require(hi[k] <= lo[k - 1], "tile data of IFD %d (overview, ends %d) does not precede tile data of IFD %d (starts %d)", k, hi[k], k - 1, lo[k - 1])
+        # every entry addresses exactly that tile's bytes: decode each range on its own
+        fh = tf.filehandle
+        p0, d0 = pages[0], dims[0]
+        offs = [int(v) for v in np.atleast_1d(p0.tags[324].value)]
+        cnts = [int(v) for v in np.atleast_1d(p0.tags[325].value)]
+        ny, nx = -(-d0[0] // d0[2]), -(-d0[1] // d0[3])
+        contig = d0[4] == 1
+        for i, (o, c) in enumerate(zip(offs, cnts)):
+            fh.seek(o)
+            data = fh.read(c)
+            seg, idx, shp = p0.decode(data, i)
+            require(seg is not None, "IFD 0 tile %d: bytes [%d,%d) do not decode", i, o, o + c)
+            s, rem = divmod(i, ny * nx)
+            ty, tx = divmod(rem, nx)
+            seg = np.asarray(seg).reshape(d0[2], d0[3], -1)
+            y0, x0 = ty * d0[2], tx * d0[3]
+            y1, x1 = min(H, y0 + d0[2]), min(W, x0 + d0[3])
+            if y1 <= y0 or x1 <= x0:
+                continue
+            got = seg[: y1 - y0, : x1 - x0, :]
+            want = w.ref[:, y0:y1, x0:x1].transpose(1, 2, 0) if contig else w.ref[s : s + 1, y0:y1, x0:x1].transpose(1, 2, 0)
+            require(got.shape == want.shape and bool(_eq(got, want).all()), "IFD 0 tile %d (plane %d, row %d, col %d): bytes [%d,%d) decode to other pixels than that tile's", i, s, ty, tx, o, o + c)
 
 
 _READER_LIBS = tuple(name + os.sep for name in ("rasterio", "tifffile", "imagecodecs"))  # Cython frames are relative paths
@@ -1184,13 +1180,13 @@ def build(chk: Check) -> None:
     _codecs()
     big = chk.tier == "thorough"
     gen = dict(max_side=640, max_tiles=400) if big else dict(max_side=400, max_tiles=260)
-    n3 = {"quick": 96, "thorough": 4000}
-    b3 = {"quick": 60, "thorough": 240}
+    n3 = {"quick": 140, "thorough": 4000}
+    b3 = {"quick": 60, "thorough": 220}
     chk.sub("gdal_decode", o_gdal, strategy=s_case(**gen), n=n3, budget_s=b3, shrink=False)
     chk.sub("tiff_decode", o_tiff, strategy=s_case(**gen), n=n3, budget_s=b3, shrink=False)
     chk.sub("layout", o_layout, strategy=s_case(**gen), n=n3, budget_s=b3, shrink=False)
-    chk.sub("thin_images", o_all, strategy=s_case(focus="thin", **gen), n={"quick": 40, "thorough": 1600}, budget_s={"quick": 40, "thorough": 120}, shrink=False)
-    chk.sub("header_rule", o_header, strategy=s_header(), n={"quick": 400, "thorough": 30000}, budget_s={"quick": 40, "thorough": 120}, shrink=False)
+    chk.sub("thin_images", o_all, strategy=s_case(focus="thin", **gen), n={"quick": 56, "thorough": 1600}, budget_s={"quick": 40, "thorough": 100}, shrink=False)
+    chk.sub("header_rule", o_header, strategy=s_header(), n={"quick": 500, "thorough": 30000}, budget_s={"quick": 40, "thorough": 100}, shrink=False)
     chk.known("D23", _k_last_level)
     chk.known("D24", _k_axis_guess)
     chk.known("D25", _k_default_block0)
